@@ -19,7 +19,7 @@ use vcommon::Run;
 // child
 
 fn child(args: &[String]) -> ! {
-    // --child <text|path> <wit file or path> <label,label,..> [--dump <dir> <label>]
+    // --child <text|path> <wit file or path> <label,label,..> [--dump <dir>]
     use std::io::Write;
     println!("PROBE {}", shim::probe_fingerprint());
     if args.get(1).map(|s| s.as_str()) == Some("probe") {
@@ -35,7 +35,7 @@ fn child(args: &[String]) -> ! {
     let dump = args
         .iter()
         .position(|a| a == "--dump")
-        .map(|i| (PathBuf::from(&args[i + 1]), args[i + 2].clone()));
+        .map(|i| PathBuf::from(&args[i + 1]));
     vcommon::install_quiet_panic_hook();
     let all = backends::all_bvs();
     // the front end runs once per process, like in the CLI
@@ -58,11 +58,10 @@ fn child(args: &[String]) -> ! {
                 println!("STATUS ok");
                 for (name, bytes) in &files {
                     println!("FILE {:016x} {} {}", vcommon::fnv(bytes), bytes.len(), name);
-                    if let Some((d, l)) = &dump {
-                        if l == label {
-                            let p = d.join(name.replace('/', "__"));
-                            std::fs::write(p, bytes).expect("dump");
-                        }
+                    if let Some(d) = &dump {
+                        let sub = d.join(label.replace(':', "+"));
+                        std::fs::create_dir_all(&sub).expect("dump dir");
+                        std::fs::write(sub.join(name.replace('/', "__")), bytes).expect("dump");
                     }
                 }
             }
@@ -181,24 +180,26 @@ fn generic_name(name: &str) -> String {
     base.to_string()
 }
 
-/// Re-run two seeds with `--dump` and describe the first difference.
-fn describe_diff(ctx: &Ctx, job: &[String], label: &str, seed: u64, tag: &str) -> (String, Value) {
-    let d0 = ctx.tmp.join(format!("dump-{tag}-0"));
-    let d1 = ctx.tmp.join(format!("dump-{tag}-s"));
-    for d in [&d0, &d1] {
-        let _ = std::fs::remove_dir_all(d);
-        std::fs::create_dir_all(d).unwrap();
-    }
-    let mut a0 = job.to_vec();
-    a0.push("--dump".into());
-    a0.push(d0.to_string_lossy().into_owned());
-    a0.push(label.to_string());
-    let mut a1 = job.to_vec();
-    a1.push("--dump".into());
-    a1.push(d1.to_string_lossy().into_owned());
-    a1.push(label.to_string());
-    let o0 = per_label(&run_child(ctx, 0, &a0)).remove(label).unwrap_or_default();
-    let o1 = per_label(&run_child(ctx, seed, &a1)).remove(label).unwrap_or_default();
+/// Run one seed with `--dump`: every backend's files land in `<dir>/<label>/`.
+fn dump_run(ctx: &Ctx, job: &[String], seed: u64, dir: &Path) -> BTreeMap<String, String> {
+    let _ = std::fs::remove_dir_all(dir);
+    std::fs::create_dir_all(dir).unwrap();
+    let mut a = job.to_vec();
+    a.push("--dump".into());
+    a.push(dir.to_string_lossy().into_owned());
+    per_label(&run_child(ctx, seed, &a))
+}
+
+/// Describe the first difference between two dumped runs for one backend:variant.
+fn describe_diff(
+    label: &str,
+    run0: &(PathBuf, BTreeMap<String, String>),
+    run1: &(PathBuf, BTreeMap<String, String>),
+) -> (String, Value) {
+    let d0 = run0.0.join(label.replace(':', "+"));
+    let d1 = run1.0.join(label.replace(':', "+"));
+    let o0 = run0.1.get(label).cloned().unwrap_or_default();
+    let o1 = run1.1.get(label).cloned().unwrap_or_default();
     let files = |o: &str| -> BTreeMap<String, String> {
         o.lines()
             .filter_map(|l| l.strip_prefix("FILE "))
@@ -262,8 +263,6 @@ fn describe_diff(ctx: &Ctx, job: &[String], label: &str, seed: u64, tag: &str) -
             result = ("-:not-reproduced-on-rerun".into(), json!({"seed0": o0, "seed": o1}));
         }
     }
-    let _ = std::fs::remove_dir_all(&d0);
-    let _ = std::fs::remove_dir_all(&d1);
     result
 }
 
@@ -313,7 +312,13 @@ fn main() {
         }
         let seed = d["seed"].as_u64().unwrap();
         let label = d["backend_variant"].as_str().unwrap().to_string();
-        let (kind, info) = describe_diff(&ctx, &job, &label, seed, "replay");
+        let r0 = (tmp.join("replay-0"), dump_run(&ctx, &job, 0, &tmp.join("replay-0")));
+        let r1 = (tmp.join("replay-s"), dump_run(&ctx, &job, seed, &tmp.join("replay-s")));
+        let (kind, info) = if r0.1.get(&label) == r1.1.get(&label) {
+            ("-:not-reproduced-on-rerun".to_string(), json!({}))
+        } else {
+            describe_diff(&label, &r0, &r1)
+        };
         println!("seed 0 vs seed {seed}: {kind}\n{}", serde_json::to_string_pretty(&info).unwrap());
         let _ = std::fs::remove_dir_all(&tmp);
         std::process::exit(if kind == "-:not-reproduced-on-rerun" { 0 } else { 1 })
@@ -383,6 +388,7 @@ fn main() {
         let base = run_seed(0);
         let others: Vec<(u64, BTreeMap<String, String>)> = (1..k).map(|s| (s, run_seed(s))).collect();
         let mut out = Vec::new();
+        let mut dumps: BTreeMap<u64, (PathBuf, BTreeMap<String, String>)> = BTreeMap::new();
         for (bi, b) in bvs.iter().enumerate() {
             let l = b.label();
             let b0 = base.get(&l).cloned().unwrap_or_default();
@@ -398,13 +404,27 @@ fn main() {
             }
             let mut diff = Value::Null;
             if let Some(seed) = differing.first() {
-                let (kind, info) = describe_diff(&ctx, &args, &l, *seed, &format!("{wi}-{bi}"));
-                procs += 2;
+                for s in [0, *seed] {
+                    if !dumps.contains_key(&s) {
+                        let d = ctx.tmp.join(format!("dump-{wi}-{s}"));
+                        let m = dump_run(&ctx, &args, s, &d);
+                        procs += 1;
+                        dumps.insert(s, (d, m));
+                    }
+                }
+                let (kind, info) = if dumps[&0].1.get(&l) == dumps[seed].1.get(&l) {
+                    ("-:not-reproduced-on-rerun".to_string(), json!({"seed0": b0}))
+                } else {
+                    describe_diff(&l, &dumps[&0], &dumps[seed])
+                };
                 diff = json!({"kind": kind, "info": info, "seed": seed});
             }
             out.push(json!({"w": wi, "b": bi, "status0": status0, "files": nfiles,
                    "differing_seeds": differing, "diff": diff,
                    "out_hash": format!("{:016x}", vcommon::fnv(b0.as_bytes()))}));
+        }
+        for (_, (d, _)) in dumps {
+            let _ = std::fs::remove_dir_all(d);
         }
         json!({"procs": procs, "rows": out})
     });
